@@ -23,13 +23,174 @@ HEADING_DOCS = [
     "## ***Note:** read this part first*\n", "## *read this **part***\n", "# ***a** b **c***\n", "## ***a***b\n", "# **a***b*\n", "## _**Note:** rest_\n",
     "### __*x*__ y\n", "# *a **b** c*\n", "Setext ***Note:** more*\n---\n", "# ** **\n", "# **a**\\\nb\n", "## **a** \n",
     "**not a heading**\n", "**Setext Title**\n===\n\ntext\n", "***Setext two***\n---\n", "# **[link](http://u)**\n", "###### **six**\n", "# *** *\n",
+    # the same shapes with the bold spelled with underscores (documents holding no asterisk at all)
+    "# __All bold__\n\ntext with _emphasis_ only\n", "## ___bold italic___\n", "__Setext Title__\n---\n\ntext\n", "### __partly__ bold\n", "# _just italic_\n",
+    "## __*mixed*__\n", "# _**mixed**_\n", "> ## __in quote__\n", "1. # __in list__ #\n",
 ]
 LIST_DOCS = [
     "- a\n- b\n- c\n", "- a\n\n- b\n\n- c\n", "1. a\n2. b\n", "1. a\n\n2. b\n", "- a\n  - x\n  - y\n- b\n", "- a\n\n  - x\n\n  - y\n\n- b\n",
     "- a\n\n  second para\n- b\n", "> - q1\n> - q2\n", "> - q1\n>\n> - q2\n", "[^n]: - f1\n    - f2\n\nx[^n]\n", "- a\n  ```\n  code\n  ```\n- b\n",
     "- a\n  > quote\n- b\n", "- ```\n  code\n  ```\n\n- ```\n  x\n  ```\n", "- > q\n\n- > r\n", "- - a\n\n- - b\n", "1. ```\n   c\n   ```\n2. p\n",
     "- | a | b |\n  |---|---|\n  | 1 | 2 |\n\n- x\n", "- <div>\n  html\n  </div>\n\n- y\n", "- * * *\n\n- z\n", "- [r]: http://u\n\n- w\n", "* x\n* y\n\n+ p\n+ q\n", "- [ ] t1\n- [x] t2\n", "3. c\n4. d\n\n   more\n5. e\n", "- a\n\n\n- b\n",
+    # items that start with a nested list, items holding a rule only or nothing, tight inside loose and loose inside tight
+    "- - ***\n\n- next\n", "- - ***\n- next\n", "* 1. ---\n\n* next\n", "- -\n\n- next\n", "- a\n\n- - ***\n  - ***\n\n- c\n", "- - x\n  - y\n\n- next\n",
+    "- - x\n\n  - y\n- next\n", "1. - a\n   - b\n\n2. - c\n", "> - - ***\n>\n> - next\n", "[^n]: - - ***\n\n    - next\n\nx[^n]\n", "- ***\n- ___\n", "-\n-\n", "-\n\n-\n",
 ]
+
+
+# ------------------------------------------------------------------------------------------
+# generated families of C10's own (the shared document generator spells emphasis with asterisks only and, in its
+# clean domain, never starts an item with a nested list nor writes items without a paragraph)
+
+_HWORDS = ["Release", "Notes", "Overview", "Note:", "alpha", "beta", "part", "two", "setup", "guide", "x", "API"]
+
+
+def _hw(rng, lo=1, hi=3) -> str:
+    return " ".join(rng.choice(_HWORDS) for _ in range(rng.randint(lo, hi)))
+
+
+def _S(rng, inner: str) -> str:
+    d = rng.choice(["**", "__"])
+    return d + inner + d
+
+
+def _E(rng, inner: str) -> str:
+    d = rng.choice(["*", "_"])
+    return d + inner + d
+
+
+def heading_content(rng) -> tuple[str, str]:
+    """(shape name, inline source) of a heading: every mix of bold/italic, each delimiter spelled `*` or `_` at random.
+    Emphasis content starts and ends with a word and emphasis is set off by spaces, so both spellings are emphasis."""
+    shapes = {
+        "all-bold": lambda: _S(rng, _hw(rng)),
+        "bold-italic(em outside)": lambda: _E(rng, _S(rng, _hw(rng))),
+        "bold-italic(strong outside)": lambda: _S(rng, _E(rng, _hw(rng))),
+        "all-bold with inner markup": lambda: _S(rng, _hw(rng) + " " + rng.choice(["`code`", "[a link](http://u/v)", _E(rng, _hw(rng)), "~~gone~~"]) + " " + _hw(rng)),
+        "all-bold link": lambda: _S(rng, "[" + _hw(rng) + "](http://u/v)"),
+        "bold then plain": lambda: _S(rng, _hw(rng)) + " " + _hw(rng),
+        "plain then bold": lambda: _hw(rng) + " " + _S(rng, _hw(rng)),
+        "two bold runs": lambda: _S(rng, _hw(rng)) + " " + _S(rng, _hw(rng)),
+        "italic only": lambda: _E(rng, _hw(rng)),
+        "italic starting bold": lambda: _E(rng, _S(rng, _hw(rng)) + " " + _hw(rng)),
+        "italic ending bold": lambda: _E(rng, _hw(rng) + " " + _S(rng, _hw(rng))),
+        "struck bold": lambda: "~~" + _S(rng, _hw(rng)) + "~~",
+        "bold in link": lambda: "[" + _S(rng, _hw(rng)) + "](http://u/v)",
+        "plain": lambda: _hw(rng, 1, 4),
+    }
+    name = rng.choice(list(shapes))
+    return name, shapes[name]()
+
+
+def _side_paragraph(rng) -> list[str]:
+    """a paragraph next to the heading: without markup, or with emphasis in one of the spellings"""
+    k = rng.randrange(6)
+    w = " ".join(rng.choice(mdgen.WORDS) for _ in range(rng.randint(2, 9)))
+    return [[w], [w + " _emphasis_ only"], [w + " *emphasis* only"], [w + " **bold** here"], [w + " __bold__ here"], ["**Whole paragraph bold**"]][k]
+
+
+def gen_heading_doc(rng) -> tuple[str, str]:
+    """One heading (ATX, ATX with closing hashes, setext) at top level / in a quote / list item / footnote, optionally
+    between paragraphs.  Returns (family label, document)."""
+    shape, txt = heading_content(rng)
+    form = rng.choice(["atx", "atx", "atx-closed", "setext"])
+    if form == "setext":
+        lines = [txt, rng.choice(["=", "-"]) * rng.randint(3, 7)]
+    else:
+        lines = ["#" * rng.randint(1, 6) + " " + txt + (" " + "#" * rng.randint(1, 3) if form == "atx-closed" else "")]
+    where = rng.choice(["top", "top", "top", "quote", "item", "ordered item", "footnote"])
+    if where == "quote":
+        lines = ["> " + l for l in lines]
+    elif where in ("item", "ordered item", "footnote"):
+        m = {"item": rng.choice("-*+") + " ", "ordered item": "1. ", "footnote": "[^n]: "}[where]
+        ind = " " * (4 if where == "footnote" else len(m))
+        lines = [m + lines[0]] + [ind + l for l in lines[1:]]
+    blocks = []
+    if rng.random() < 0.4:
+        blocks.append(_side_paragraph(rng))
+    blocks.append(lines)
+    if rng.random() < 0.6:
+        blocks.append(_side_paragraph(rng))
+    if where == "footnote":
+        blocks.append(["see[^n]"])
+    return f"{shape}/{form}/{where}", "\n".join(mdgen.join_blocks(blocks)) + "\n"
+
+
+def _shape_list(rng, depth: int, bullet_pool: str = "-*+", bare_ok: bool = True) -> list[str]:
+    """A list whose items hold anything an item can hold — nothing, a paragraph, a rule, code, a quote, a nested list
+    (also as the FIRST block), several blocks — authored tight or loose independently at each level.
+
+    Kept away from two behaviours of the pinned formatter (reported; not attributed here):
+      (1) [repaired in flowmark, see KNOWN_FINDINGS C10-item-break-flag-leaks: after a blank line inside an item the
+          item-break flag stayed set until a paragraph, code block or quote was written; an item ending in a rule, a table
+          or an empty item lost the blank line before the NEXT item in every mode.  Rules and bare items are now allowed at
+          every block position.]
+      (2) '* ___' is written '* * * *', which reads back as a rule, not an item (the document changes: C01/C04).
+          Hence: no rule under a '*' bullet.
+      (3) lists in footnote definitions: Marko reads every following item of a list in a footnote as nested in the
+          previous one ('[^n]: - a\n    - b'), and with empty items the formatter's output differs between the modes
+          beyond blank lines ('[^n]: 7.\n\n    8.\n').  Hence: no footnote container in this family (the special
+          documents have lists in footnotes)."""
+    ordered = rng.random() < 0.25
+    bullet = rng.choice(bullet_pool)
+    loose = rng.random() < 0.5
+    n = rng.randint(1, 3) if depth else rng.randint(2, 4)
+    start = rng.choice([1, 1, 7])
+    style = rng.choice(["mixed", "mixed", "mixed", "plain"] + (["bare"] if bare_ok else []))
+    out: list[str] = []
+    for i in range(n):
+        marker = f"{start + i}." if ordered else bullet
+        kinds = []
+        nblocks = 1 if style != "mixed" else rng.choice([0, 1, 1, 1, 1, 1, 2, 2, 3] if depth == 0 else [0, 1, 1, 1, 1, 2])
+        for b in range(max(nblocks, 0 if bare_ok else 1)):
+            pool = ["para", "para", "para", "code", "quote"] + (["list", "list"] if depth == 0 else ["list"] if depth == 1 else [])
+            if style == "plain":
+                pool = ["para"]
+            elif style == "bare":      # items without any text block: a rule, nothing, or a list of such
+                pool = ["empty"] + (["list"] if depth < 2 else [])
+            if bare_ok and style != "plain" and (ordered or bullet != "*"):
+                pool += ["rule", "rule"]
+            kinds.append(rng.choice(pool))
+        kinds = [k for k in kinds if k != "empty"]
+        body: list[str] = []
+        for b, kind in enumerate(kinds):
+            if kind == "para":
+                blk = [" ".join(rng.choice(mdgen.WORDS) for _ in range(rng.randint(1, 6)))]
+            elif kind == "rule":
+                # spelled with another character than the bullet ('- ---' is itself a rule, not an item)
+                blk = [rng.choice(["***", "___"] + (["---"] if ordered or bullet != "-" else []))]
+            elif kind == "code":
+                blk = ["```", "code", "```"]
+            elif kind == "quote":
+                blk = ["> " + rng.choice(mdgen.WORDS)]
+            else:
+                blk = _shape_list(rng, depth + 1, bullet_pool="".join(c for c in "-*+" if c != bullet) if not ordered else "-*+",
+                                  bare_ok=bare_ok)
+            # blocks of one item: blank line between them, except that a nested list / code / quote may follow a paragraph directly
+            # (not a bare '-': under a paragraph that is a setext underline)
+            if b and not (kinds[b - 1] == "para" and kind in ("list", "code", "quote") and blk[0] != "-" and rng.random() < 0.5):
+                body.append("")
+            body.extend(blk)
+        ind = " " * (len(marker) + 1)
+        if not body:
+            out.append(marker)
+        for j, l in enumerate(body):
+            out.append((marker + " " + l) if j == 0 else ((ind + l) if l else ""))
+        if loose and i < n - 1:
+            out.append("")
+    return out
+
+
+def gen_list_shape_doc(rng) -> tuple[str, str]:
+    lines = _shape_list(rng, 0)
+    where = rng.choice(["top", "top", "after paragraph", "quote"])
+    if where == "quote":
+        lines = [("> " + l) if l else ">" for l in lines]
+    elif where == "footnote":
+        lines = ["[^n]: " + lines[0]] + [("    " + l) if l else "" for l in lines[1:]] + ["", "see[^n]"]
+    elif where == "after paragraph":
+        lines = ["intro text", ""] + lines
+    return where, "\n".join(lines) + "\n"
 
 
 def fmt(doc, **o):
@@ -97,6 +258,11 @@ def retight(t, f):
 def spacing_oracle(ctx: Ctx, docs, label) -> None:
     from flowmark.formats.flowmark_markdown import ListSpacing
     for i, doc in enumerate(docs):
+        try:
+            src_ast = mdast.norm_doc(doc)
+        except Exception as e:
+            ctx.fail("parse raised", {"doc": doc}, repr(e))
+            continue
         for W, sem in ((40, False), (0, True)):
             try:
                 pres = fmt(doc, width=W, semantic=sem, list_spacing=ListSpacing.preserve)
@@ -105,6 +271,7 @@ def spacing_oracle(ctx: Ctx, docs, label) -> None:
             except Exception as e:
                 ctx.fail("format raised", {"doc": doc}, repr(e))
                 continue
+            preserve_check(ctx, doc, src_ast, pres, ap, {"doc": doc, "width": W, "semantic": sem}, label.replace("spacing", "preserve"))
             for m in (ListSpacing.preserve, ListSpacing.loose, ListSpacing.tight):
                 # the mode is also carried as its plain string value (config files, the documented API form)
                 ref = pres if m == ListSpacing.preserve else outs[m]
@@ -148,12 +315,82 @@ def spacing_oracle(ctx: Ctx, docs, label) -> None:
                         break
 
 
+def lists_of(t, acc=None) -> list:
+    acc = [] if acc is None else acc
+    if isinstance(t, tuple) and t and t[0] == "list":
+        acc.append(t)
+    if isinstance(t, tuple):
+        for x in t:
+            lists_of(x, acc)
+    return acc
+
+
+def preserve_check(ctx: Ctx, doc: str, src_ast, pres: str, pres_ast, case: dict, label: str) -> None:
+    """'preserve keeps every list as authored': the lists of the formatted text, read back, are tight/loose exactly as
+    the lists of the source read by the same parser.  Compared only where source and output are the same document up
+    to tightness (whether the formatter keeps the document is C01/C04's question, with its own known findings)."""
+    a, b = src_ast, pres_ast
+    if retight(a, lambda t: None) != retight(b, lambda t: None):
+        ctx.bump(label + ":document-differs(not compared)")
+        return
+    la, lb = lists_of(a), lists_of(b)
+    ctx.count(["preserve", doc, case["width"], case["semantic"]], nontrivial=any(not l[3] for l in la) and any(l[3] for l in la))
+    ctx.bump(label)
+    for x, y in zip(la, lb):
+        # Not compared: a tight list one of whose items holds a loose list after another block.  The pinned
+        # formatter writes the loose inner list's leading item break there ('1. a\n2. b\n   + c\n\n     d\n' ->
+        # '1. a\n2. b\n\n   + c\n\n     d\n'), so the outer list reads back loose although no blank line
+        # separates ITS items (reported; the property speaks of blank lines between items).
+        if x[3] and any(k and blk[0] == "list" and not blk[3] for it in x[4] for k, blk in enumerate(it[1])):
+            ctx.bump(label + ":tight-around-loose(not compared)")
+            continue
+        if x[3] != y[3]:
+            ctx.fail("PRESERVE: a list authored %s reads back %s in preserve mode" % (("tight", "loose")[not x[3]], ("tight", "loose")[not y[3]]),
+                     {**case, "mode": "preserve"}, {"out": pres, "list": str(x)[:300]})
+            break
+
+def tie_render_shapes(ctx: Ctx, docs) -> None:
+    """The render tie (rendertie.tie_render: Lean render model = MarkdownNormalizer under the symbolic wrapper) on the
+    ASTs of the list-shape family, in all three spacing modes."""
+    import astser
+    from common import dec, run_driver
+    from flowmark.formats.flowmark_markdown import ListSpacing, flowmark_markdown
+    ops, reals, cases = [], [], []
+    unser = 0
+    for doc in docs:
+        for sp in ListSpacing:
+            m = flowmark_markdown(astser.symbolic_wrapper, sp)
+            d = m.parse(doc.strip() + "\n")
+            try:
+                defs, body = astser.ser_doc(d)
+            except astser.Unserialisable:
+                unser += 1
+                continue
+            reals.append(m.render(d))
+            ops.append(f"render\t{sp.value}\t{defs}\t{body}")
+            cases.append((doc, sp.value))
+    outs = run_driver(ops, workers=16)
+    bad = 0
+    for (doc, sp), o, real in zip(cases, outs, reals):
+        got = None if o == "bad-op" else dec(o)
+        ctx.count(["render", doc, sp], nontrivial=len(doc) > 20)
+        ctx.bump("render:list-shapes")
+        if got != real:
+            bad += 1
+            ctx.tie_broken("render", {"doc": doc, "list_spacing": sp}, got, real)
+    ctx.obligation(f"tie render (list-shape family): Lean render model = MarkdownNormalizer (symbolic wrapper) on {len(cases)} ASTs "
+                   f"({len(docs)} documents ×3 spacing modes); {unser} not serialisable",
+                   "correspondence", bad == 0 and unser <= len(cases) // 20, f"{bad} disagreement(s), {unser} unserialisable")
+
+
 def replay_findings(ctx: Ctx) -> None:
     for fid, e in ctx.kf.items():
         c = e.get("input") or {}
         if "doc" in c:
             off, on = fmt(c["doc"], cleanups=False), fmt(c["doc"], cleanups=True)
             ctx.known_replay(fid, unbold_ast(mdast.norm_doc(off)) != mdast.norm_doc(on))
+        if "spacing_docs" in c:
+            ctx.known_replay(fid, any(fmt(d, list_spacing=sp) != want for d, sp, want in c["spacing_docs"]))
 
 
 def run(ctx: Ctx) -> None:
@@ -169,6 +406,21 @@ def run(ctx: Ctx) -> None:
     cleanup_oracle(ctx, gen_docs, "cleanups:generated")
     spacing_oracle(ctx, LIST_DOCS, "spacing:special")
     spacing_oracle(ctx, gen_docs, "spacing:generated")
+    # C10's own families: headings with each emphasis delimiter spelled either way; lists of every item shape
+    hdocs = [gen_heading_doc(rng) for _ in range(ctx.scale(150, 3000))]
+    cleanup_oracle(ctx, [d for _, d in hdocs], "cleanups:heading-family")
+    for lab, _ in hdocs:
+        ctx.bump("heading-family:" + lab.split("/")[0])
+    ldocs = [gen_list_shape_doc(rng) for _ in range(ctx.scale(320, 5000))]
+    if driver_ok:
+        ctx.guard("tie render (list-shape family)", tie_render_shapes, [d for _, d in ldocs])
+    spacing_oracle(ctx, [d for _, d in ldocs], "spacing:list-shapes")
+    for lab, _ in ldocs:
+        ctx.bump("list-shapes:" + lab)
+    ctx.rule("heading family: {all bold, bold-italic both nestings, partly bold, italic, struck, linked, plain} × each delimiter spelled "
+             "* or _ × {ATX, closed ATX, setext} × {top, quote, item, footnote} × neighbouring paragraphs with/without emphasis of either spelling")
+    ctx.rule("list-shape family: items holding nothing / a paragraph / a rule / code / a quote / a nested list (also as first block) / "
+             "several blocks, tight or loose per level, top level / after a paragraph / in a quote; preserve compared with the source's own tightness")
     ctx.rule("special heading/list documents + generated documents with every mix of emphasis in headings, nested/mixed lists, lists in "
              "quotes and footnotes × {cleanups on/off} × {preserve, loose, tight} × two wrap settings")
 
@@ -180,6 +432,8 @@ def search(ctx: Ctx) -> None:
         if doc:
             cleanup_oracle(ctx, [doc], "from-broken-tie")
             spacing_oracle(ctx, [doc], "from-broken-tie")
+    cleanup_oracle(ctx, [gen_heading_doc(rng)[1] for _ in range(2000)], "search:heading-family")
+    spacing_oracle(ctx, [gen_list_shape_doc(rng)[1] for _ in range(2000)], "search:list-shapes")
     docs = [mdgen.gen_document(rng, bold_headings=True) for _ in range(3000)]
     cleanup_oracle(ctx, docs, "search")
     spacing_oracle(ctx, docs, "search")
